@@ -21,7 +21,7 @@ def main():
         lanes = int(args[1]); args = args[2:]
     dirs = [os.path.abspath(d) for d in (args or sorted(glob.glob(os.path.join(ROOT, "seeded", "*"))))]
     lanes = max(1, min(lanes, len(dirs)))
-    names = [f"par{i}" for i in range(lanes)]
+    names = [f"p{os.getpid()}x{i}" for i in range(lanes)]
     q = queue.Queue()
     for d in dirs:
         q.put(d)
